@@ -20,6 +20,24 @@ CHECKS = {
         "note": "labels compared within (8+2*depth) ulp of the largest label; generator bound chan_bw/|center_freq| >= 1e-9",
         "technique": "property-based testing: Hypothesis vs exact-rational label model",
     },
+    "C03": {
+        "text": "Generated signals (N 1..64 incl. odd/prime, f4/f8/c8/c16, sample shapes of rank 0..4) and shifts in every accepted form (int, float, 0-d, "
+                "time Quantity, arrays of full/lower rank/length-1 axes; integer, fractional, |s|>=N, mixed signs) compared element by element with an "
+                "explicit extended-precision DFT shift-theorem reference; the zero-fill region must be bit-exactly zero for every broadcast element; "
+                "crop=True must equal the cropped crop=False result; large-N cases (to 8192) against numpy.fft; call histories for hidden state. Exploration.",
+        "ref": "DESIGN.md section 4 C03",
+        "note": "tolerance 2e-6*(1+log2 N)*max|x| follows from the library's documented complex64 phase ramp; shifts |s|<=1e-8 are the documented no-op",
+        "technique": "property-based testing: Hypothesis vs longdouble DFT-matrix oracle; metamorphic crop relation; call-history variants",
+    },
+    "C04": {
+        "text": "Generated baseband signals (N 1..64, c8/c16, channel/pol/trailing shapes) and frequency shifts (scalar, (1,), lower-rank, length-1 axes, "
+                "full; Hz/kHz/MHz/1/s; whole and fractional bins, either sign, beyond the band) compared bin by bin with DFT(x*exp(2 pi i df t)) from an "
+                "extended-precision DFT, wrapped bins required to be empty for every element; call histories varying one ingredient (e.g. only the "
+                "sample rate) to expose state carried between calls. Exploration.",
+        "ref": "DESIGN.md section 4 C04",
+        "note": "the single bin at the edge of the zeroed region is unconstrained when the shift is within 1e-9 of a whole bin (float conversion of the Quantity)",
+        "technique": "property-based testing: Hypothesis vs longdouble DFT oracle in the frequency domain; call-history variants",
+    },
     "C18": {
         "text": "Generated-input search against an independent table of all 7-smooth numbers below 2^64: exhaustive for 0 <= N < 10^6 (10^7 thorough), "
                 "at s-1, s, s+1 and the midpoint for the 7-smooth s < 2^62 (all of them in the thorough tier), Hypothesis integers over [0, 2^62), and "
